@@ -121,6 +121,7 @@ class PathState:
         p.ncall = self.ncall
         p.eqs = dict(self.eqs)
         p.origin = getattr(self, "origin", None)
+        p.cut = getattr(self, "cut", False)
         return p
 
 
@@ -404,6 +405,7 @@ class Exec:
                         if not self.fresh_per_entry:
                             n.conds = [("ult", Lf({rs_: 1, 1: -cb_}), True) for (qs_, rs_, sa_, cb_) in q.divs.values()]
                             n.eqs = {}
+                            n.cut = True
                         else:
                             n.events = [e for e in q.events if e[0] == "class"]
                         for iid in f.blocks[b].insts:
@@ -1000,7 +1002,9 @@ class Exec:
                 if ub is not None and ub < (1 << w):
                     p.env[k] = a
                 else:
-                    p.events.append(("narrowing", I.id, w, repr(self.subst(p, a))))
+                    # (cut: this path started at a loop head, where the conditions established before the loop were dropped -
+                    # a missing bound is then no evidence that the value is unbounded)
+                    p.events.append(("narrowing", I.id, w, repr(self.subst(p, a)), bool(getattr(p, "cut", False))))
                     p.mods[(w, repr(self.subst(p, a)))] = self.subst(p, a)
                     p.env[k] = Lf.s(("mod", w, repr(self.subst(p, a))))
             else:
